@@ -317,19 +317,26 @@ func propC05(w *World, r *Report) {
 					continue
 				}
 				callee := ci.Common().StaticCallee()
-				if callee == nil || callee.Signature.Recv() == nil || !typeIs(callee.Signature.Recv().Type(), "github.com/juju/ratelimit", "Bucket") {
+				mname, countArg := "", 1
+				switch {
+				case callee != nil && callee.Signature.Recv() != nil && typeIs(callee.Signature.Recv().Type(), "github.com/juju/ratelimit", "Bucket"):
+					mname = callee.Name()
+				case ci.Common().IsInvoke() && bucketIfaces(w)[ci.Common().Value.Type().String()]:
+					// the bucket behind an interface of the repository's own
+					mname, countArg = ci.Common().Method.Name(), 0
+				default:
 					continue
 				}
-				switch callee.Name() {
+				switch mname {
 				case "Available", "Capacity", "Rate":
-					r.Pass("T1", "bucket observer "+callee.Name()+" in "+fn.Name(), w.InstrPos(in), "does not change the budget")
+					r.Pass("T1", "bucket observer "+mname+" in "+fn.Name(), w.InstrPos(in), "does not change the budget")
 				case "TakeAvailable":
 					nTake++
-					arg := newTermEnv(w).termOf(ci.Common().Args[1]).String()
+					arg := newTermEnv(w).termOf(ci.Common().Args[countArg]).String()
 					inComp := fn.Signature.Recv() != nil && isPtrTo(fn.Signature.Recv().Type(), c.T)
 					r.Check(arg == "1" && inComp, "T1", "TakeAvailable takes exactly one token, inside the throttler: "+fn.Name(), w.InstrPos(in), "count = "+arg)
 				default:
-					r.Fail("T1", "bucket mutator "+callee.Name()+" in "+fn.Name(), w.InstrPos(in), "tokens are taken/waited for outside the per-frame TakeAvailable(1)", "")
+					r.Fail("T1", "bucket mutator "+mname+" in "+fn.Name(), w.InstrPos(in), "tokens are taken/waited for outside the per-frame TakeAvailable(1)", "")
 				}
 			}
 		}
@@ -621,4 +628,28 @@ func checkWrappedSinkProtocol(w *World, r *Report, ruleProto, ruleFlag string) {
 	} else {
 		r.Pass(ruleFlag, "throttled motion sink: recording flag <=> wrapped file open", "-", inv[0].pred+" <=> wrapped open")
 	}
+}
+
+var bucketIfaceCache = map[*World]map[string]bool{}
+
+// bucketIfaces: the non-empty interface types of the repository that a *ratelimit.Bucket is converted to somewhere
+// (an interface extracted for the bucket); calls through them are calls on the bucket.
+func bucketIfaces(w *World) map[string]bool {
+	if m, ok := bucketIfaceCache[w]; ok {
+		return m
+	}
+	m := map[string]bool{}
+	for _, fn := range w.RepoFuncs() {
+		for _, b := range fn.Blocks {
+			for _, in := range b.Instrs {
+				if mi, ok := in.(*ssa.MakeInterface); ok && typeIs(mi.X.Type(), "github.com/juju/ratelimit", "Bucket") {
+					if it, ok := mi.Type().Underlying().(*types.Interface); ok && it.NumMethods() > 0 {
+						m[mi.Type().String()] = true
+					}
+				}
+			}
+		}
+	}
+	bucketIfaceCache[w] = m
+	return m
 }
